@@ -247,6 +247,7 @@ type Env struct {
 	cur    *Invocation
 	Bufs   [][]uint64 // every buffer handed to newBufBitStream during the run (r5)
 	BufInv []int      // number of invocations started before that buffer was created
+	BufPersist []bool // recording on (the shrinker's second, adopting run) or off
 	Seeds  []SeedEvent // every (re)seeding of a PRNG stream during the run (r1)
 }
 
@@ -372,6 +373,7 @@ func RunCheck(p *LazyProgram, env *Env, cfg Config) *RunLog {
 	rapid.VerifSetBufObserver(func(buf []uint64, persist bool) {
 		env.Bufs = append(env.Bufs, append([]uint64(nil), buf...))
 		env.BufInv = append(env.BufInv, len(env.Invs))
+		env.BufPersist = append(env.BufPersist, persist)
 	})
 	rapid.VerifSetSeedObserver(func(seed uint64) { env.Seeds = append(env.Seeds, SeedEvent{seed, len(env.Invs)}) })
 	defer rapid.VerifSetClock(nil)
